@@ -20,7 +20,7 @@ type c02Case struct {
 var indentPool = []string{"    ", "  ", "\t", " ", "        ", "   "}
 
 func genC02(t *rapid.T) c02Case {
-	in := GenIntentOpt(t, IntentOpts{Mixins: true, Subs: true, Collectors: true, PathVarRefs: true, MultiLineAnnos: true, PlusText: true, EpAnnos: true})
+	in := GenIntentOpt(t, IntentOpts{Mixins: true, Subs: true, Collectors: true, PathVarRefs: true, MultiLineAnnos: true, PlusText: true, EpAnnos: true, SubsBeforePub: true})
 	indent := pick(t, indentPool, "indent")
 	text := Render(in, indent)
 	st := statsOf(in)
